@@ -46,6 +46,7 @@ impl Exec {
         let count_before = m.total_gc_count();
         let drops_before = self.drops_seen[ai];
         let frame = self.frame_snapshot(a);
+        let pace_entry = self.pace_enter(a, op, before, debt_before, count_before);
 
         // C07 bookkeeping on entry
         if before == Ph::Sleeping {
@@ -109,6 +110,7 @@ impl Exec {
         track::set_ctx(old);
         let (events, _fired) = fault::end_call();
         self.stats.add("trace_events", events);
+        *self.op_events.entry(self.op_index).or_insert(0) += events;
         let ret = match r {
             Ok(x) => x,
             Err(_) => {
@@ -117,6 +119,7 @@ impl Exec {
                     self.drain_events(a);
                     return;
                 }
+                self.pace_taint(a);
                 Ret::Unwound
             }
         };
@@ -135,6 +138,7 @@ impl Exec {
         }
 
         self.drain_events(a);
+        self.pace_exit(a, op, pace_entry, after, ret == Ret::Unwound);
         if ret != Ret::Unwound {
             self.check_phase_contract(a, op, before, after, ret, debt_before, debt_after, count_before, drops_before);
         }
@@ -268,6 +272,12 @@ impl Exec {
         let frame = self.frame_snapshot(a);
         m.set_pacing(p.to_pacing());
         self.mon[a as usize].pacing = Some(p);
+        if self.phase(a) == Some(Ph::Sleeping) {
+            // takes effect for the whole next cycle: only the armed sleep rule is given up
+            self.mon[a as usize].pace.armed = None;
+        } else {
+            self.pace_taint(a);
+        }
         self.check_frame(a, frame, "set_pacing");
         self.record_observation(a);
     }
@@ -277,6 +287,7 @@ impl Exec {
         let frame = self.frame_snapshot(a);
         let d = m.allocation_debt();
         m.adjust_debt(amt);
+        self.pace_taint(a);
         let d2 = m.allocation_debt();
         self.stats.inc("adjust_debt_checks");
         if d > 0.0 && d + amt > 0.0 {
